@@ -443,6 +443,47 @@ func renameTip(n *core.N, from, to string) bool {
 	return false
 }
 
+// look-alike taxon names: names that a careless comparison identifies or orders
+// differently (case folding, numeric value, prefixes, natural order)
+var lookAlikes = [][]string{
+	{"A", "a"}, {"Tip", "tip", "TIP"}, {"7", "07", "7.0"}, {"t1", "t10", "t1a"},
+	{"Ab", "aB", "AB", "ab"}, {"B", "a", "C"}, {"x2", "x10"}, {"Z", "a"}, {"taxon", "Taxon", "taxon_"},
+}
+
+func tipNodes(n *core.N, out *[]*core.N) {
+	if len(n.Kids) == 0 {
+		*out = append(*out, n)
+	}
+	for _, k := range n.Kids {
+		tipNodes(k, out)
+	}
+}
+
+// lookAlikeNames renames some tips of the base tree (hence of every tree of the
+// collection, which list the taxa in different orders) with one or two look-alike families.
+func lookAlikeNames(g *core.G, base *core.N) {
+	var tips []*core.N
+	tipNodes(base, &tips)
+	g.R.Shuffle(len(tips), func(i, j int) { tips[i], tips[j] = tips[j], tips[i] })
+	used := map[string]bool{}
+	for _, t := range tips {
+		used[t.Name] = true
+	}
+	i := 0
+	for fam := 1 + g.Intn(2); fam > 0; fam-- {
+		f := lookAlikes[g.Intn(len(lookAlikes))]
+		for _, name := range f {
+			if i >= len(tips) || used[name] {
+				continue
+			}
+			delete(used, tips[i].Name)
+			tips[i].Name = name
+			used[name] = true
+			i++
+		}
+	}
+}
+
 // variant derives one tree of the collection from the (unrooted) base.
 // pContract / pNNI steer how often each inner branch of the base survives.
 func variant(g *core.G, o *core.TreeOpts, base *core.N, pContract, pNNI float64, rooting int) *core.N {
@@ -575,6 +616,9 @@ func collection(g *core.G) ([]*core.N, core.TreeOpts) {
 		o.FunnyNames = true
 	}
 	base, _ := g.Tree(o)
+	if g.Chance(0.15) { // look-alike taxon names (case-only differences, numeric aliases, prefixes)
+		lookAlikeNames(g, base)
+	}
 	k := sizes[g.Intn(len(sizes))]
 	pC := []float64{0, 0.1, 0.3, 0.5}[g.Intn(4)]
 	pN := []float64{0, 0.1, 0.3}[g.Intn(3)]
